@@ -1,7 +1,9 @@
 import ShVerif.Model.C28Site
 /-
-  C28 — the reviewed expectation for the panic-site table: every explicit `panic(` call and every
-  unchecked type assertion in packages interp and expand (non-test, non-hook files), each with the
+  C28 — the reviewed expectation for the panic-site table: every explicit `panic(` call, every
+  unchecked type assertion and every shift with a count that is not syntactically non-negative (none
+  today: all counts are literals or `uint(…)` conversions) in packages interp and expand (non-test,
+  non-hook files), each with the
   reason why it cannot be reached from a parsed program run through `Runner.Run` with options
   accepted by `New` — or, where it *can* be reached today, the id of the open known finding.
   `ShVerif.C28.panic_sites_expected` (Props/C28.lean) compares this list with the table regenerated
